@@ -67,6 +67,12 @@ def layouts():
         for first, second in (('r', 'k'), ('k', 'r')):
             for order in ('first-desc', 'second-then-first', 'agg-desc-then-first-desc'):
                 out.append((perm, names, first, second, True, order))
+            # LIMIT cuts the ORDERED un-pivoted rows before they are pivoted
+            for order in ('agg-desc-then-first-desc|limit1', 'agg-desc-then-first-desc|limit2', 'second-then-first|limit2', 'first-desc|limit3', '|limit2'):
+                out.append((perm, names, first, second, True, order))
+            # no GROUP BY clause: an aggregate query is grouped by its non-aggregate targets, here exactly the two pivot columns
+            out.append((perm, names, first, second, True, '|implicit'))
+            out.append((perm, names, first, second, False, '|implicit'))
     return out
 
 
@@ -75,13 +81,19 @@ def build(perm, names, first, second, byname, order=None, pivot=True):
     pv = [col(first), col(second)] if byname else [names.index(first) + 1, names.index(second) + 1]
     gb = A.GroupBy([col('r'), col('k')], None)
     ob = None
+    limit = None
+    order, _, extra = (order or '').partition('|')
+    if extra.startswith('limit'):
+        limit = int(extra[5:])
+    elif extra == 'implicit':
+        gb = None
     if order == 'first-desc':
         ob = [A.OrderBy(col(first), A.Ordering.DESC)]
     elif order == 'second-then-first':
         ob = [A.OrderBy(col(second), A.Ordering.ASC), A.OrderBy(col(first), A.Ordering.ASC)]
     elif order == 'agg-desc-then-first-desc':
         ob = [A.OrderBy(col(names[-1]), A.Ordering.DESC), A.OrderBy(col(first), A.Ordering.DESC)]
-    return select(targets, from_='t', group_by=gb, order_by=ob, pivot_by=A.PivotBy(pv) if pivot else None)
+    return select(targets, from_='t', group_by=gb, order_by=ob, limit=limit, pivot_by=A.PivotBy(pv) if pivot else None)
 
 
 def expected(perm, names, first, second, un):
